@@ -188,7 +188,7 @@ def run_layout_case(ctx, conv, R, rng, size, fields, used, values=None, tag="lay
     given = dict(vals)
     if rng.random() < 0.2:
         for name, f in zip(names, fields):
-            if f[0] == "m":
+            if f[0] == "m" and f[3] <= 20:  # enumeration members and flags are small numbers
                 given[name] = bool(vals[name]) if f[3] == 1 else harness.IntSub(vals[name])
         ctx.count("layouts_with_int_subclass_values")
     # ... in any Mapping (the notation's own type annotation), not only a dict
